@@ -273,7 +273,7 @@ def _cov_values(rng, k, sd, style):
 
 
 def gen_model_case(rng: random.Random, seed):
-    k = rng.randint(2, 4)
+    k = rng.choice([2, 3, 3, 4, 4, 5])
     sd = [str(Fraction(rng.choice([2, 3, 4, 6, 8]), 4)) for _ in range(k)]
     mode = "raw" if rng.random() < 0.65 else "modeling"
     ops = []
@@ -287,8 +287,11 @@ def gen_model_case(rng: random.Random, seed):
                 ops.append(["rvs", _partition(rng, k)])
             elif r < 0.75:
                 ops.append(["params", _cov_values(rng, k, sd, rng.choice(["mild", "strong", "over", "any"]))])
-            elif r < 0.9:
+            elif r < 0.88:
                 ops.append(["both", _partition(rng, k), _cov_values(rng, k, sd, rng.choice(["mild", "strong", "any"]))])
+            elif r < 0.94:
+                # covariances recomputed from the model's present variances (valid: |c| < 1 and small blocks; invalid: |c| > 1)
+                ops.append(["setcorr", str(Fraction(rng.choice([-15, -12, -4, 4, 12, 15, 17, 18]), 16)), rng.random() < 0.5])
             else:
                 ops.append(["neither"])
     else:
@@ -389,7 +392,7 @@ def gen_cases(rng: random.Random, n: int, tier: str):
             dists = gen_dists(rng, shared=rng.random() < 0.15)
             out.append({"kind": "ops", "dists": dists, "ops": gen_ops(rng, dists), "seed": seed})
         elif r < 0.8:
-            nn = rng.choice([1, 2, 2, 3, 3, 4, 5])
+            nn = rng.choice([1, 2, 2, 3, 3, 4, 5, 6])
             kind = rng.choice(["pd", "pd", "singular", "indef", "indef", "random", "negative", "illcond"])
             out.append({"kind": "psd", "A": sym_matrix(rng, nn, kind), "mkind": kind,
                         "zero_entry": rng.random() < 0.1, "seed": seed})
@@ -458,6 +461,16 @@ def corpus_cases():
         {"kind": "ops", "dists": [_nrm("ra", "A")], "ops": [["join", [], ["fill", "0"]]], "seed": 5},
         {"kind": "ops", "dists": [_nrm("ra", "A"), _nrm("rb", "B")],
          "ops": [["join", ["ra", "rb"], ["fill", "0"]], ["subs", [["A", "B"], ["B", "A"]]], ["add", _nrm("ra", "3")]], "seed": 6},
+        # clearly indefinite 3x3 and 4x4 blocks with pairwise different entries (|cov(1,3)| far above sqrt(var1*var3)):
+        # the write-back of nearest_valid_parameters must put every entry of the nearest matrix at its own position
+        {"kind": "psd", "A": [["1", "3/10", "12/5"], ["3/10", "9", "1/10"], ["12/5", "1/10", "4"]], "mkind": "indef",
+         "zero_entry": False, "seed": 20},
+        {"kind": "psd", "A": [["2", "1/2", "-3", "1/4"], ["1/2", "5", "1/3", "4"], ["-3", "1/3", "1", "1/5"], ["1/4", "4", "1/5", "3"]],
+         "mkind": "indef", "zero_entry": False, "seed": 21},
+        # the same through a model: invalid 3x3 block at Model.create, then covariances set from the variances
+        {"kind": "model", "k": 3, "sd": ["1", "3", "2"], "part": [[0, 1, 2]],
+         "vals": {"C_1_0": "3/10", "C_2_0": "12/5", "C_2_1": "1/10"}, "mode": "raw",
+         "ops": [["setcorr", "1/2", False], ["neither"], ["setcorr", "5/4", True]], "seed": 22},
         {"kind": "psd", "A": [["1", "1/2", "1/4"], ["1/2", "1/4", "1/8"], ["1/4", "1/8", "1/16"]], "mkind": "singular",
          "zero_entry": False, "seed": 7},
         {"kind": "psd", "A": [["1", "2"], ["2", "1"]], "mkind": "indef", "zero_entry": False, "seed": 8},
@@ -1115,6 +1128,35 @@ def plus_tol(A, tol):
     return [[A[i][j] + (tol if i == j else 0) for j in range(len(A))] for i in range(len(A))]
 
 
+def _k_nearblocks(rvs, tbl, values, near, drv, k, label):
+    """K for the write-back of nearest_valid_parameters: every joint block read back from the result
+    (`dist.variance.subs(nearest)`, the real code) against the Lean `blockAfter` of the model's assignments
+    (driver op `nearblocks`; "-" = the model wrote nothing there, the given value stays)."""
+    m = drv.ask(["nearblocks", wire_rvs(rvs), tbl])
+    joint = [d for d in rvs if isinstance(d, JointNormalDistribution)]
+    if not isinstance(m, list) or len(m) != len(joint):
+        k.append(f"{label}: nearblocks answered {str(m)[:200]} for {len(joint)} joint blocks")
+        return
+    for d, mb in zip(joint, m):
+        n = d.variance.rows
+        code, model = [], []
+        for i in range(n):
+            for j in range(n):
+                e = sympy.sympify(d.variance[i, j])
+                if e.is_Symbol:
+                    code.append(repr(float(near[e.name])) if e.name in near else "missing")
+                    model.append(mb[i][j] if mb[i][j] != "-" else (repr(float(values[e.name])) if e.name in values else "missing"))
+                else:
+                    code.append("num")
+                    model.append("num" if mb[i][j] == "-" else mb[i][j])
+        if code != model:
+            pos = next(t for t in range(n * n) if code[t] != model[t])
+            k.append(f"{label}: block {list(d.names)} read back after nearest_valid_parameters: position "
+                     f"({pos // n},{pos % n}) is {code[pos]} in the code, {model[pos]} in the model "
+                     f"(code {code}, model {model})")
+            return
+
+
 def run_psd(case, drv):
     k, mon, tags = [], [], []
     A = frac_matrix(case["A"])
@@ -1255,6 +1297,10 @@ def run_psd(case, drv):
                 k.append(f"nearest_valid_parameters: model {m} code {code}")
         elif m != code:
             k.append(f"nearest_valid_parameters: model {m} code {code}")
+        if near is not None:
+            _k_nearblocks(rvs, tbl, values, near, drv, k, "nearest_valid_parameters")
+    if not valid and not same and n >= 3:
+        tags.append(f"nvp:invalid-block-dim={n}")
     return {"k": k, "mon": _dedupe(mon), "tags": tags, "nontrivial": n >= 2}
 
 
@@ -1459,7 +1505,7 @@ def run_ucp(case, drv):
             "nontrivial": any(len(b["A"]) > 1 for b in case["blocks"])}
 
 
-PK = ["CL", "V", "KA", "Q"]
+PK = ["CL", "V", "KA", "Q", "MAT"]
 
 
 def _model_rvs(part, k):
@@ -1631,6 +1677,7 @@ def run_model(case, drv):
             # set every covariance parameter of the present joint blocks to c*sd_i*sd_j (alternating sign on request)
             inits = model.parameters.inits
             upd = {}
+            neg_var = None
             for d in model.random_variables:
                 if isinstance(d, JointNormalDistribution) and d.level == "IIV":
                     n = len(d.names)
@@ -1640,7 +1687,20 @@ def run_model(case, drv):
                             vi, vj = sympy.sympify(d.variance[i, i]), sympy.sympify(d.variance[j, j])
                             if e.is_Symbol and vi.is_Symbol and vj.is_Symbol:
                                 sgn = -1 if (op[2] and (i + j) % 2 == 0) else 1
-                                upd[e.name] = sgn * float(Fraction(op[1])) * math.sqrt(inits[vi.name] * inits[vj.name])
+                                prod = float(inits[vi.name]) * float(inits[vj.name])
+                                if not prod >= 0:
+                                    # a negative (or nan) variance among the model's estimates: the block is not PSD,
+                                    # which the statement forbids of every model — a failing input, not a harness error
+                                    bad_ = vi.name if not float(inits[vi.name]) >= 0 else vj.name
+                                    if not float(inits[bad_]) >= -1e-9:
+                                        neg_var = neg_var or bad_
+                                        continue
+                                    prod = 0.0      # a rounding-size negative variance counts as 0
+                                upd[e.name] = sgn * float(Fraction(op[1])) * math.sqrt(prod)
+            if neg_var is not None:
+                mon.append(M("model-estimates-not-psd", f"{label}: the model's initial estimate of the variance {neg_var} is "
+                             f"{float(inits[neg_var])!r} (blocks {before}): a covariance block with a negative variance "
+                             f"is not positive semidefinite"))
             if not upd:
                 tags.append("mop:setcorr-no-block")
                 continue
@@ -1814,6 +1874,33 @@ def run_shared(case, drv):
         code = {kk_: repr(float(v)) for kk_, v in near.items()}
         if m[0] != "ok" or dict(map(tuple, m[1])) != code:
             k.append(f"nearest_valid_parameters (shared parameters): model {str(m)[:300]} code {str(code)[:300]}")
+        _k_nearblocks(rvs, nt, fvals, near, drv, k, "nearest_valid_parameters (shared parameters)")
+    # ---- invalid values are replaced by the nearest valid matrix: a clearly invalid block whose parameters are
+    # symbols, pairwise distinct in the lower triangle and part of no different block, read back from the result,
+    # is nearest_positive_semidefinite(block at the given values) itself, position by position
+    for bi, (names, nm, A) in enumerate(blocks):
+        n_ = len(A)
+        scale = max(1, max(abs(x) for row in A for x in row))
+        if exact_psd(plus_tol(A, Fraction(1, 10 ** 9) * scale)):
+            continue
+        tri = [nm[i][j] for i in range(n_) for j in range(i + 1)]
+        if any(x is None for x in tri) or len(set(tri)) != len(tri) or any(nm[i][j] != nm[j][i] for i in range(n_) for j in range(n_)):
+            continue
+        if any(nm2 != nm and set(tri) & {x for row in nm2 for x in row} for _, nm2, _ in blocks):
+            continue
+        with warnings.catch_warnings():
+            warnings.simplefilter("ignore")
+            B = pmath.nearest_positive_semidefinite(np.array([[float(x) for x in row] for row in A]))
+        if n_ >= 3:
+            tags.append(f"nvp:invalid-block-dim={n_}")
+        bad = [(i, j) for i in range(n_) for j in range(i + 1) if float(near[nm[i][j]]) != float(B[i, j])]
+        if bad:
+            i, j = bad[0]
+            where = [(a, b) for a in range(n_) for b in range(a + 1) if float(near[nm[i][j]]) == float(B[a, b])]
+            mon.append(M("nearest-valid-block-not-nearest", f"block {list(names)} is not PSD at the given values; afterwards "
+                         f"{nm[i][j]} (position ({i},{j})) is {float(near[nm[i][j]])!r}, the nearest valid matrix has "
+                         f"{float(B[i, j])!r} there" + (f" (that value stands at position {where[0]} of the nearest matrix)" if where else "")))
+            break
     # ---- UCP round trip on a model with these random variables (needs positive definite blocks)
     if all_well and all(exact_pd(A) for _, _, A in blocks):
         has_neg = False
